@@ -1443,7 +1443,8 @@ impl Server {
             if self.sessions.borrow().slab.contains(token.0) {
                 let slab_before = self.sessions.borrow().slab.len();
                 let session = { self.sessions.borrow_mut().slab.remove(token.0) };
-                session.borrow_mut().close(); /*mut*/
+                session.borrow_mut().close();
+                self.sessions.borrow_mut().decr();
                 // The removed token is truly gone afterwards. The slab may shrink
                 // by MORE than one: `close()` also frees the session's backend
                 // slab slot(s) (the multi-token pattern), so assert it shrank by
